@@ -46,6 +46,7 @@ def run(c, chk):
         raise report.Broken('no function writes a lone double quote: the quoting writer was not found')
     ex = sym.Explorer(c.modules, max_visits=2, mod_sets=c.mod_sets, max_paths=20000)
     escaped = None
+    reported = set()
     fn = writers[0]
     for wf in writers:
         esc = {}
@@ -69,6 +70,18 @@ def run(c, chk):
                             esc[byte] = s_
             if any(t == '%c' for t in texts):
                 raw_c = True
+            # every piece written between the quotes must be a form the reader decodes independently of what follows
+            for e in fps:
+                t = e.args[1][1] if e.args[1][0] == 'str' else None
+                if t in ('"', '%c') or (t is not None and len(t) == 2 and t[0] == '\\' and '%' not in t):
+                    continue
+                if t == '\\%03o':
+                    continue          # fixed-width octal: the reader's 1-3 digit rule takes exactly these three digits
+                key = 'writer-escape-form:%s:%s' % (wf.name, t)
+                if key not in reported:
+                    reported.add(key)
+                    chk.fail('R5.1', key, c.where(e.ins), '%s() writes %r inside the quotes: a variable-length or unknown escape form - what the reader decodes '
+                             'depends on the characters that follow (e.g. an unpadded octal escape swallows a following digit)' % (wf.name, t))
         if not quoted or not raw_c:
             raise report.Broken('quoting writer %s() was not recognised (quotes=%s, %%c=%s)' % (wf.name, quoted, raw_c))
         if escaped is None:
